@@ -38,6 +38,8 @@ EPS = 2.0 ** -52
 
 
 def make_dist(rng, k):
+    if k % 7 == 3:
+        return make_structured(rng, k)
     p = int(rng.integers(1, 9))
     style = k % 4
     if style == 0:          # integer SPD, integer mean
@@ -63,6 +65,33 @@ def make_dist(rng, k):
             cov = cov.copy()
             cov[0, 1:] *= eps_
             cov[1:, 0] *= eps_
+    return mean, cov
+
+
+def make_structured(rng, k):
+    """Covariance of a linear SEM with small integer / dyadic weights, computed exactly in integers: many entries are
+    exactly zero (marginal independences) although the variables are conditionally dependent (colliders), and p is large
+    enough (up to 24) for index arrays of a narrow dtype to matter."""
+    p = int(rng.integers(3, 8)) if k % 2 else int(rng.integers(12, 25))
+    order = [int(v) for v in rng.permutation(p)]
+    W = np.zeros((p, p), dtype=np.int64)
+    for a in range(p):
+        for b in range(a + 1, p):
+            if rng.random() < (0.5 if p < 9 else 2.0 / p):
+                W[order[a], order[b]] = int(rng.choice([-2, -1, 1, 2]))
+    # A = (I - W^T)^-1 by forward substitution in exact integers
+    A = np.eye(p, dtype=object)
+    for j in order:
+        row = np.zeros(p, dtype=object)
+        row[j] = 1
+        for i in range(p):
+            if W[i, j] != 0:
+                row = row + int(W[i, j]) * A[i]
+        A[j] = row
+    v = np.array([int(x) for x in rng.integers(1, 4, p)], dtype=object)
+    cov = (A * v) @ A.T
+    cov = np.array(cov.tolist(), dtype=float)
+    mean = np.array([float(x) for x in rng.integers(-3, 4, p)])
     return mean, cov
 
 
@@ -93,15 +122,15 @@ def gen(tier, seed, shard, nshards):
             qs = []
             for _ in range(8):
                 perm = [int(v) for v in rng.permutation(p)]
-                ny = int(rng.integers(1, p + 1))
-                nx = int(rng.integers(0, p - ny + 1))
+                ny = int(rng.integers(1, min(p, 6) + 1))
+                nx = int(rng.integers(0, min(p - ny, 6) + 1))
                 qs.append((perm[:ny], perm[ny:ny + nx]))
         queries = []
         sd = np.sqrt(np.abs(np.diag(np.asarray(cov, dtype=float))))
         for (Y, Xs) in qs:
             far = 1e6 if rng.random() < 0.05 else 1.0        # now and then condition on a value very far out
             x = [float(np.asarray(mean, dtype=float)[j] + far * sd[j] * v) for j, v in zip(Xs, rng.normal(size=len(Xs)) * 2)]
-            queries.append({"Y": Y, "X": Xs, "x": x, "form": int(rng.integers(0, 5))})
+            queries.append({"Y": Y, "X": Xs, "x": x, "form": int(rng.integers(0, 9))})
         yield "dist", {"mean": mean, "cov": cov, "queries": queries, "k": k}
 
 
@@ -115,6 +144,9 @@ def _form(idx, form):
         return np.array(idx, dtype=int)
     if form == 3:
         return [np.int64(v) for v in idx]
+    if form in (5, 6, 7, 8):
+        # index arrays of a narrow integer dtype (the indices themselves always fit)
+        return np.array(idx, dtype=(np.int8, np.uint8, np.int16, np.int32)[form - 5])
     return idx[0] if len(idx) == 1 else list(idx)      # bare int when a single index
 
 
@@ -160,6 +192,10 @@ def judge(family, case, rec):
             rec.count("form:scalar-int")
         if q["form"] == 2:
             rec.count("form:ndarray")
+        if q["form"] >= 5:
+            rec.count("form:narrow-int-index-array")
+        if p >= 12:
+            rec.count("many-variables(p>=12)")
         ctx = {"Y": Y, "X": Xs, "x": x}
         # ---- marginal: exact selection
         try:
